@@ -184,6 +184,12 @@ class Facts:
             j = json.load(fh)
         self.crate = j["crate"]
         self.bodies = j["bodies"]
+        # bodies whose MIR const evaluation had already consumed when the driver came to them: fine for constants
+        # (their value stays opaque), not for code
+        self.stolen = j.get("stolen", [])
+        lost = [x["path"] for x in self.stolen if x.get("kind") in ("Fn", "AssocFn", "Closure")]
+        if lost:
+            raise BrokenRun("MIR of %d function bodies was not available to the driver: %s" % (len(lost), lost[:3]))
         self.adts = j["adts"]
         self.enums = j["enums"]
         for k, b in self.bodies.items():
